@@ -1,10 +1,45 @@
+import XehModel.Driver.C01
+import XehModel.Driver.C02
+import XehModel.Driver.C03
+import XehModel.Driver.C04
+import XehModel.Driver.C05
+import XehModel.Driver.C06
+import XehModel.Driver.C07
+import XehModel.Driver.C08
 import XehModel.Driver.C09
+import XehModel.Driver.C10
+import XehModel.Driver.C11
+import XehModel.Driver.C12
+import XehModel.Driver.C13
+import XehModel.Driver.C14
+import XehModel.Driver.C15
+import XehModel.Driver.C16
+import XehModel.Driver.C17
+import XehModel.Driver.C18
 
 namespace Xeh.Driver
 
+/-- first token of a request line = property id -/
 def handleLine (line : String) : String :=
   match (line.trimAscii.toString.splitOn " ").filter (· ≠ "") with
+  | "C01" :: rest => C01.handle rest
+  | "C02" :: rest => C02.handle rest
+  | "C03" :: rest => C03.handle rest
+  | "C04" :: rest => C04.handle rest
+  | "C05" :: rest => C05.handle rest
+  | "C06" :: rest => C06.handle rest
+  | "C07" :: rest => C07.handle rest
+  | "C08" :: rest => C08.handle rest
   | "C09" :: rest => C09.handle rest
+  | "C10" :: rest => C10.handle rest
+  | "C11" :: rest => C11.handle rest
+  | "C12" :: rest => C12.handle rest
+  | "C13" :: rest => C13.handle rest
+  | "C14" :: rest => C14.handle rest
+  | "C15" :: rest => C15.handle rest
+  | "C16" :: rest => C16.handle rest
+  | "C17" :: rest => C17.handle rest
+  | "C18" :: rest => C18.handle rest
   | _ => "bad-op"
 
 end Xeh.Driver
